@@ -387,3 +387,52 @@ func TestC18StandaloneSequenceOracle(t *testing.T) {
 		t.Errorf("%d non-trivial sequences, %d damaged outputs rejected", nt, rejected)
 	}
 }
+
+// Streams import-layout and dict-key (c18_layout.go): the oracle accepts what the implementation
+// gives on every enumerated layout / scenario and rejects the damaged outputs: the lone std import
+// next to a cgo preamble dropped; a Dict key qualified by the plain name while its import line
+// carries the numbered alias.
+func TestC18LayoutAndDictKey(t *testing.T) {
+	r := rand.New(rand.NewSource(2))
+	lone, weak, det := 0, 0, 0
+	for _, c := range append(c18LayoutCases(r, "quick"), c18DictKeyCases(r, "quick")...) {
+		got := hist.NewWorld().Exec(c.Hist)
+		if m := (c18{}).Oracle(c, got); m != "" {
+			t.Fatalf("oracle rejects (%v): %s\n%s", c.Tags, m, c.Hist.Sexp())
+		}
+		if c.Meta["weak"] == true {
+			weak++
+		} else if c.Stream == "dict-key" {
+			det++
+		}
+		for _, tg := range c.Tags {
+			if tg == "preamble+C-not-mentioned+std-imports=1" {
+				lone++
+			}
+		}
+	}
+	if lone < 10 || weak == 0 || det < 10*weak/4 {
+		t.Fatalf("lone-import-next-to-preamble=%d weak=%d byte-compared=%d", lone, weak, det)
+	}
+	if _, ok := GorootName("text/template"); !ok {
+		t.Skip("no GOROOT/src")
+	}
+	paths := []string{"text/template"}
+	good := "package p\n\n// #cgo LDFLAGS: -lm\nimport \"C\"\n\nimport \"text/template\"\n\nvar _ = template.V0\n"
+	bad := "package p\n\n// #cgo LDFLAGS: -lm\nimport \"C\"\n\nvar _ = template.V0\n"
+	if m := C18Check(paths, nil, good); m != "" {
+		t.Fatalf("good layout rejected: %s", m)
+	}
+	if m := C18Check(paths, nil, bad); m == "" {
+		t.Fatal("dropped import accepted")
+	}
+	paths = []string{"math/rand", "crypto/rand"}
+	good = "package p\n\nimport (\n\trand1 \"crypto/rand\"\n\t\"math/rand\"\n)\n\nvar _ = rand.V0\nvar _ = map[int]int{rand1.V1: 7}\n"
+	bad = "package p\n\nimport (\n\trand1 \"crypto/rand\"\n\t\"math/rand\"\n)\n\nvar _ = rand.V0\nvar _ = map[int]int{rand.V1: 7}\n"
+	if m := C18Check(paths, nil, good); m != "" {
+		t.Fatalf("good dict key rejected: %s", m)
+	}
+	if m := C18Check(paths, nil, bad); m == "" {
+		t.Fatal("key qualified by a name its import does not provide is accepted")
+	}
+}
